@@ -10,6 +10,9 @@ pub struct PosSpec {
     pub board: Board,
     pub gold_to_move: bool,
     pub move_number: usize,
+    /// which of the diagram notations the parser documents / the repository's tests use is used to
+    /// hand the position to the engine (see Board::diagram_styled); 0 = exactly the printed form
+    pub notation: u8,
 }
 
 #[derive(Clone, Debug, PartialEq, Eq)]
@@ -214,7 +217,8 @@ pub fn build_pos(raw: &RawPos, mode: PosMode) -> PosSpec {
         }
     }
     debug_assert!((raw.keep_hanging || b.traps_legal()) && b.within_complement());
-    PosSpec { board: b, gold_to_move: raw.gold_to_move, move_number: move_number_from(raw.mn_sel) }
+    let notation = if raw.mn_sel % 3 == 0 { 0 } else { raw.mn_sel.rotate_left(3) ^ (raw.picks.len() as u8).wrapping_mul(37) };
+    PosSpec { board: b, gold_to_move: raw.gold_to_move, move_number: move_number_from(raw.mn_sel), notation }
 }
 
 /// A board on which every piece of `mover` is frozen or blocked (used to steer C04 towards the
@@ -389,7 +393,7 @@ pub fn near_immobile_pos(x_gold: bool, imm: &[(u8, u8, u8)], sel: u8, gold_to_mo
             b.0[t as usize] = m::EMPTY;
         }
     }
-    PosSpec { board: b, gold_to_move, move_number: move_number_from(mn_sel) }
+    PosSpec { board: b, gold_to_move, move_number: move_number_from(mn_sel), notation: if sel % 2 == 0 { 0 } else { sel.rotate_left(2) ^ mn_sel } }
 }
 
 pub fn near_immobile() -> impl Strategy<Value = PosSpec> {
@@ -488,7 +492,7 @@ pub fn motif_pos(sel: &[u8; 8], extras: &[(u8, u8, u8)], gold_to_move: bool, las
         }
         place(&mut b, gold, k, sqsel);
     }
-    PosSpec { board: b, gold_to_move, move_number: move_number_from(sel[6] ^ sel[7]) }
+    PosSpec { board: b, gold_to_move, move_number: move_number_from(sel[6] ^ sel[7]), notation: if sel[1] % 2 == 0 { 0 } else { sel[1] ^ sel[5] } }
 }
 
 pub fn motif() -> impl Strategy<Value = PosSpec> {
